@@ -56,6 +56,8 @@ def states(f):
     if buf and ''.join(buf).strip(): yield parse_state(''.join(buf))
 def parse_state(txt):
     d={}
+    if not txt.lstrip().startswith('/\\'):
+        txt='/\\ '+txt.lstrip()      # a specification with a single variable is dumped without the bullet
     p=P(txt)
     while True:
         p.ws()
